@@ -54,7 +54,8 @@ func symConfig(tag string, seeded bool) garbleConfig {
 		c.ctrlflow = symx.Choose(2) == 1
 	}
 	if seeded {
-		c.seed = symx.Bytes(tag+"seed", 8)
+		// the whole seed is used for naming, whatever its length
+		c.seed = symx.Bytes(tag+"seed", 8+symx.Choose(2))
 	}
 	return c
 }
@@ -208,11 +209,15 @@ func H_C12_seeded_distinct() {
 	// length classes): the compared digests do not depend on the class.
 	c1.apply()
 	r1 := hashWithPackage(&listedPackage{ImportPath: path1}, name1)
-	symx.Assume(len(r1) == 6)
+	if symx.Symbolic() {
+		symx.Assume(len(r1) == 6)
+	}
 	d1 := sumBuffer
 	c2.apply()
 	r2 := hashWithPackage(&listedPackage{ImportPath: path2}, name2)
-	symx.Assume(len(r2) == 6)
+	if symx.Symbolic() {
+		symx.Assume(len(r2) == 6)
+	}
 	d2 := sumBuffer
 	symx.Reach("hashed")
 	symx.Assert(!bytesEq(d1[:], d2[:]), "distinct (seed, package, identifier) hash differently")
